@@ -17,7 +17,7 @@
  *  close        releases a descriptor of the ghost ledger; closing twice / a descriptor
  *               never handed out is a failed obligation
  *  memcpy/memmove/memmem on the receiver's 32 KiB stack buffer: NOT here - byte-granular access
- *               to that buffer is intractable for CBMC; harness/C05/recv.c carries word-wise
+ *               to that buffer is intractable for CBMC; harness/C05/recv_models.c carries word-wise
  *               executable models (cross-checked natively against libc).
  *  epoll_ctl    records the registration; may fail with any errno
  *  pthread_mutex_*  exclusive no-ops with a ghost "held" flag: lock of a held or
@@ -64,7 +64,7 @@ int vf_close_calls;
 
 /* ---- ghost pipes ------------------------------------------------------------------
  * The queue content is kept as 64-bit words (little endian, LP64) so that harnesses and the
- * word-wise memory models of harness/C05/recv.c never need byte-granular access; `len` is in
+ * word-wise memory models of harness/C05/recv_models.c never need byte-granular access; `len` is in
  * bytes and need not be a multiple of 8 (damaged content), bytes of the last word past `len` are slack. */
 #define VF_PIPE_WORDS	(VF_PIPE_CAP / 8)
 typedef struct { uint64_t w[4]; } vf_pkt32_t;
